@@ -1,4 +1,5 @@
 import Mqtt5V.Gen.Timing
+import Mqtt5V.Proofs.TraceKA
 /-! # C12 — keep-alive: PINGREQ every negotiated interval; 1.5 × silence means reconnect (timing rules)
 
 The three expressions that decide the behaviour are *translated* from the source on every run
@@ -42,5 +43,65 @@ theorem ping_before_timeout (k : Nat) (hk : 0 < k) : ∀ p t, pingWaitMs k = som
 theorem read_timeout_no_overflow (k : Nat) (hk : k ≤ 65535) : 3 * k * 1000 < 2 ^ 31 := by omega
 
 example : readTimeoutMs 7 = some 10500 ∧ pingWaitMs 7 = some 7000 ∧ negotiated (some 7) 60 = 7 ∧ negotiated none 60 = 60 := by decide
+
+
+section ComposedModel
+open Mqtt5V.Model
+
+/-- **C12 end to end (PINGREQ no later than K seconds), every accepted timed history**: whenever the execution context has run out of ready
+handlers on a running client, with K > 0 the keep-alive that was negotiated when the ping timer was last armed — at `async_run`, at the session
+refresh that follows a (re)connection, at the end of the write that carried the previous PINGREQ; all read off the events alone
+(`TraceKA.obs`) — then less than K seconds have passed since that moment, or a write is in progress (the PINGREQ is in it, or waits right
+behind it: the property's "plus transport latency").  The model (`Model/TraceKA.lean`) is `ping_op` and the sender's handling of the PINGREQ
+over a virtual clock, with the three timing expressions translated from the source; the tie is that every timed transcript of the real
+client is accepted by it. -/
+theorem composed_ping_by_deadline (tr : List TraceKA.Ev) (hacc : TraceKA.accepts (tr ++ [.eol]) = true)
+    (hr : (TraceKA.obs tr).running = true) (hk : 0 < (TraceKA.obs tr).kArm) :
+    (TraceKA.obs tr).now < (TraceKA.obs tr).lastReset + 1000 * (TraceKA.obs tr).kArm ∨ (TraceKA.obs tr).writing = true := by
+  simp only [TraceKA.accepts, Option.isSome_iff_exists] at hacc
+  obtain ⟨s, hs⟩ := hacc
+  exact Mqtt5V.Proofs.TraceKA.ping_by_deadline hs hr hk
+
+/-- **C12 end to end (K = 0 is silent)**: a client configured with keep-alive 0, on connections whose CONNACK carries no Server Keep Alive
+(or 0), never starts a write that carries a PINGREQ — in no accepted history. -/
+theorem composed_no_ping_with_keepalive_zero (tr : List TraceKA.Ev) (t : Bool)
+    (hc : ∀ k, TraceKA.Ev.cfg k ∈ tr → k = 0) (hu : ∀ ska, TraceKA.Ev.connUp ska ∈ tr → ska = none ∨ ska = some 0) :
+    TraceKA.accepts (.cfg 0 :: tr ++ [.wr true t]) = false := by
+  cases h : TraceKA.accepts (.cfg 0 :: tr ++ [.wr true t]) with
+  | false => rfl
+  | true =>
+    simp only [TraceKA.accepts, Option.isSome_iff_exists] at h
+    obtain ⟨s, hs⟩ := h
+    exact absurd (Mqtt5V.Proofs.TraceKA.no_ping_with_keepalive_zero hs hc hu) id
+
+/-- a PINGREQ is written only if a positive keep-alive was in force at one of the moments the ping timer was armed -/
+theorem composed_ping_needs_keepalive (tr : List TraceKA.Ev) (t : Bool) (hacc : TraceKA.accepts (tr ++ [.wr true t]) = true) :
+    0 < (TraceKA.obs tr).kMax := by
+  simp only [TraceKA.accepts, Option.isSome_iff_exists] at hacc
+  obtain ⟨s, hs⟩ := hacc
+  exact Mqtt5V.Proofs.TraceKA.ping_needs_keepalive hs
+
+/-- **C12 end to end (silence limit)**: every read the client starts carries the time-out 1.5 · K of the keep-alive negotiated at that moment
+(the broker's Server Keep Alive if the latest CONNACK had one, else the configured value), and no time-out at all for K = 0.  (That the
+connection is abandoned exactly when this time-out expires without a byte is the stream layer's part: H-stream monitor, S.3.) -/
+theorem composed_read_timeout_rule (tr : List TraceKA.Ev) (t : Option Nat) (hacc : TraceKA.accepts (tr ++ [.rd t]) = true) :
+    t = readTimeoutMs (negotiated (TraceKA.obs tr).ska (TraceKA.obs tr).cfg) := by
+  simp only [TraceKA.accepts, Option.isSome_iff_exists] at hacc
+  obtain ⟨s, hs⟩ := hacc
+  exact Mqtt5V.Proofs.TraceKA.read_timeout_rule hs
+
+/- the premises are satisfiable, and the guards bite: keep-alive 5 s; the PINGREQ leaves when 5 s have passed, not before, and not later -/
+example : TraceKA.accepts [.cfg 5, .run, .rd (some 7500), .eol, .connUp none, .refresh, .eol, .adv 4999, .eol, .adv 1, .wr true false, .eol,
+    .adv 300, .wrOk, .eol, .adv 4999, .eol, .adv 2, .wr true false, .eol] = true := by decide
+example : TraceKA.accepts [.cfg 5, .run, .eol, .adv 4999, .wr true false] = false := by decide          -- too early
+example : TraceKA.accepts [.cfg 5, .run, .eol, .adv 5000, .eol] = false := by decide                     -- overdue, nothing written
+example : TraceKA.accepts [.cfg 5, .run, .eol, .adv 5000, .wr false false] = false := by decide          -- a write without the PINGREQ that is due
+example : TraceKA.accepts [.cfg 5, .run, .connUp (some 2), .refresh, .rd (some 3000), .adv 2000, .wr true false, .eol] = true := by decide   -- Server Keep Alive wins
+example : TraceKA.accepts [.cfg 5, .run, .connUp (some 2), .refresh, .rd (some 7500)] = false := by decide
+example : TraceKA.accepts [.cfg 0, .run, .rd none, .adv 100000, .eol] = true := by decide
+example : TraceKA.accepts [.cfg 5, .run, .wr false false, .adv 5000, .eol, .adv 9000, .eol, .wrOk, .wr true false, .eol] = true := by decide   -- transport latency: the PINGREQ waits for the write in progress
+example : (TraceKA.obs [.cfg 5, .run, .eol, .adv 4999]).running = true ∧ 0 < (TraceKA.obs [.cfg 5, .run, .eol, .adv 4999]).kArm := by decide
+
+end ComposedModel
 
 end Mqtt5V.Props.C12
